@@ -70,8 +70,19 @@ let show_sout = function
 let cur = ref (init [])
 let table = ref []
 let mask = ref None
+(* several classes live side by side in one interpreter: key -> (class body, state, current mask helper) *)
+let classes : (mlstring, (string * z) list * enum_state * mask_cls option) Hashtbl.t = Hashtbl.create 16
+let cur_key = ref ""
+let syn_count = ref 0
+let mask_count = ref 0
+let spec_only = ref false
+let save () = if !cur_key <> "" then Hashtbl.replace classes !cur_key (!table, !cur, !mask)
+let load_new key t = save (); cur_key := key; table := t; cur := init t; mask := None
 
 let do_op o =
+  if !spec_only then
+    print_endline ("- | - | " ^ show_sout (spec !table o) ^ " | " ^ b2s (allowed !table o) ^ " | 0")
+  else
   let before = List.length (entries !cur) in
   let (st', r) = step !cur o in
   cur := st';
@@ -88,10 +99,24 @@ let () =
     (try
       (match words line with
        | ["E"; k] -> (match table_of (coq_str k) with
-                      | Some t -> table := t; cur := init t; mask := None;
+                      | Some t -> load_new k t;
                                   print_endline ("ok " ^ string_of_int (List.length t) ^ " " ^ b2s (table_ok t))
-                      | None -> table := []; cur := init []; print_endline "none")
-       | ["T"; ms] -> let t = members_of ms in table := t; cur := init t; mask := None;
+                      | None -> load_new k []; print_endline "none")
+       | ["SW"; k] -> (save ();
+                       match Hashtbl.find_opt classes k with
+                       | Some (t, st, m) -> cur_key := k; table := t; cur := st; mask := m;
+                                            print_endline ("ok " ^ string_of_int (List.length t) ^ " " ^ b2s (table_ok t))
+                       | None -> print_endline "none")
+       | ["EM"] -> (match !mask with
+                    | Some m -> incr mask_count; let t = m.m_entries in
+                                load_new ("mask" ^ string_of_int !mask_count) t;
+                                print_endline ("ok " ^ string_of_int (List.length t) ^ " " ^ b2s (table_ok t))
+                    | None -> print_endline "nomask")
+       | ["SO"; f] -> spec_only := (f = "1"); print_endline "ok"
+       | ["HC"] -> print_endline "skip"
+       | ["AB"; v; s] -> do_op (OpCall (z_of_hex v, s = "1"))
+       | ["GA"; n] -> do_op (OpGetName (coq_str n))
+       | ["T"; ms] -> let t = members_of ms in incr syn_count; load_new ("syn" ^ string_of_int !syn_count) t;
                       print_endline ("ok " ^ string_of_int (List.length t) ^ " " ^ b2s (table_ok t))
        | ["C"; v; s] | ["C"; v; s; _] -> do_op (OpCall (z_of_hex v, s = "1"))
        | ["N"; n; s] -> do_op (OpCallName (coq_str n, s = "1"))
@@ -132,7 +157,7 @@ let () =
        | ["MR"; k; _] ->
           (match real_mask (coq_str k), real_mask_enum (coq_str k) with
            | Some (Inl m), Some en ->
-              (match table_of en with Some t -> table := t; cur := init t | None -> ());
+              (match table_of en with Some t -> load_new (ml_str en) t | None -> load_new (ml_str en) []);
               mask := Some m;
               print_endline ("ok " ^ hex_of_z m.m_offset ^ " " ^ show_members m.m_values ^ " " ^ show_members m.m_entries)
            | Some (Inr e), _ -> mask := None; print_endline ("X " ^ show_err e)
